@@ -176,6 +176,22 @@ pub fn closure_size(m: &mut ReManager, e: RegLan, cap: usize) -> Option<usize> {
     Some(n)
 }
 
+/// bulk history: n distinct unrelated terms (ids grow past 2n), so that the program under test works with large ids,
+/// a large store and a grown hash map
+pub fn bulk_preload(m: &mut ReManager, n: u32) {
+    let mut prev = m.epsilon();
+    for i in 0..n {
+        let lo = 0x1000 + (i % 0x20000);
+        let r = m.range(lo, lo + 1 + (i / 0x20000));
+        if i % 4 == 0 {
+            prev = m.concat(r, prev);
+            if i % 64 == 0 {
+                prev = m.epsilon();
+            }
+        }
+    }
+}
+
 /// history noise: unrelated constructions and queries that change ids, operand order and cache contents
 pub fn noise(m: &mut ReManager, rng: &mut Rng, pool: &[RegLan], n: usize, deriv_cap: usize) {
     let mut local: Vec<RegLan> = pool.to_vec();
